@@ -58,7 +58,7 @@ class TlcResult:
         self.error_trace = ""
 
 
-_COV_RE = re.compile(r"^<(\w+) line \d+, col \d+ to line \d+, col \d+ of module (\w+)>: (\d+):(\d+)")
+_COV_RE = re.compile(r"^<(\w+) line \d+, col \d+ to line \d+, col \d+ of module (\w+)(?: \([\d ]+\))?>: (\d+):(\d+)")
 
 
 def tlc(spec_dir, module, cfg=None, workers=4, env=None, timeout=900, simulate=None,
@@ -144,15 +144,21 @@ def require_coverage(r, actions):
         raise ToolError("vacuous TLC run: actions never taken: %s" % missing)
 
 
-def printed_json(r, marker):
-    """Extract JSON payloads printed by TLC as  <<"MARKER", "<json string>">>  lines."""
+def printed_json(r, marker, required=False):
+    """Extract JSON payloads printed by TLC as  <<"MARKER", "<json string>">> .  TLC pretty-prints
+    long tuples over several lines, so the whole output is scanned, not single lines.
+    required=True: raise ToolError when no such payload was printed (an eof marker must exist)."""
     out = []
-    pat = re.compile(r'^<<"' + re.escape(marker) + r'", "(.*)">>$')
-    for line in r.printed:
-        m = pat.match(line)
-        if m:
-            s = m.group(1).encode("utf-8").decode("unicode_escape")
-            out.append(json.loads(s))
+    pat = re.compile(r'<<\s*"' + re.escape(marker) + r'",\s*"((?:[^"\\]|\\.)*)"\s*>>', re.S)
+    for m in pat.finditer(r.out):
+        raw = m.group(1)
+        try:
+            sdec = raw.encode("utf-8").decode("unicode_escape")
+            out.append(json.loads(sdec))
+        except Exception as e:  # noqa: BLE001
+            raise ToolError("cannot decode %s payload printed by TLC: %s: %s" % (marker, e, raw[:200]))
+    if required and not out:
+        raise ToolError("TLC printed no %s payload (expected at eof)" % marker)
     return out
 
 
